@@ -642,6 +642,23 @@ impl Scenario for Events {
                             }
                         }
                         KeyState::Down if is_mod_key(k) => {
+                            // the one clause of the statement that names a history: "NumLock pressed
+                            // while the hidden Pause-Ctrl is held" - held as the events say (its last
+                            // event was a press), whatever the decoder's own record claims
+                            if k == KeyCode::NumpadLock {
+                                let want_h = if before.rctrl2 { KeyCode::PauseBreak } else { KeyCode::NumpadLock };
+                                if r != Some(DecodedKey::RawKey(want_h)) {
+                                    fail!(
+                                        'ops,
+                                        i,
+                                        "numlock-press-follows-the-hidden-ctrl-events",
+                                        "Down(NumpadLock) yielded {}, expected RawKey({}): the last RControl2 event delivered was {}",
+                                        decoded_show(&r),
+                                        kname(want_h),
+                                        if before.rctrl2 { "a press" } else { "a release (or there was none)" }
+                                    );
+                                }
+                            }
                             let want = if k == KeyCode::NumpadLock && live_before.rctrl2 { KeyCode::PauseBreak } else { k };
                             if r != Some(DecodedKey::RawKey(want)) {
                                 fail!(
